@@ -33,7 +33,8 @@ M1 == H(CatSeq(<<XorT(H(Var("p")), H(Pad(Gg))), H(Var("salt1")), H(Var("salt2"))
 Defs == << <<"v", Vv>>, <<"B", Bb>> >>                \* evaluated before the client is called
 \* leading-zero corners and password / salt classes
 Corners == {"none", "A", "B", "S"}
-PwClasses == {"ascii", "multibyte", "long"}
+\* "spaced": white space (ASCII and Unicode) at both ends belongs to the password; "blank": nothing but white space
+PwClasses == {"ascii", "multibyte", "long", "spaced", "blank"}
 SaltLens == {0, 8, 32, 64}
 Case(c, lz, pw, s1, s2) == [kind |-> "right-and-wrong", corner |-> c, lz |-> lz, pw |-> pw, salt1 |-> s1, salt2 |-> s2,
                             defs |-> Defs, m1 |-> M1, s |-> Ss]
